@@ -38,20 +38,21 @@ type c07Pred struct {
 	Z    int64    `json:"z,omitempty"`
 }
 type c07In struct {
-	Kind    string    `json:"kind"` // counter, subkey, table, trim, accum, num, perm
-	Hist    []string  `json:"history_hex,omitempty"`
-	Hist2   []string  `json:"history2_hex,omitempty"` // perm: the permuted history
-	Delim   int       `json:"delim,omitempty"`        // table: the single delimiter byte
-	Pred    *c07Pred  `json:"pred,omitempty"`         // trim: samples Hist, Trim(Pred), samples Hist2, optional Trim(Pred2)
-	Pred2   *c07Pred  `json:"pred2,omitempty"`
-	PermOf  string    `json:"perm_of,omitempty"`
-	Groups  []c07Expr `json:"groups,omitempty"`
-	Cols    []c07Col  `json:"cols,omitempty"`
-	Keep    bool      `json:"keep,omitempty"`
-	Reverse bool      `json:"reverse,omitempty"`
-	Ps      []float64 `json:"ps,omitempty"`
-	Samples []string  `json:"samples,omitempty"` // num: the sample strings
-	Family  string    `json:"family,omitempty"`  // num: generator family (tag only)
+	Kind     string    `json:"kind"` // counter, subkey, table, trim, accum, num, perm
+	Hist     []string  `json:"history_hex,omitempty"`
+	Hist2    []string  `json:"history2_hex,omitempty"` // perm: the permuted history
+	Delim    int       `json:"delim,omitempty"`        // table: a single delimiter byte (older replay files)
+	DelimHex string    `json:"delim_hex,omitempty"`    // table: the delimiter (any length); overrides Delim
+	Pred     *c07Pred  `json:"pred,omitempty"`         // trim: samples Hist, Trim(Pred), samples Hist2, optional Trim(Pred2)
+	Pred2    *c07Pred  `json:"pred2,omitempty"`
+	PermOf   string    `json:"perm_of,omitempty"`
+	Groups   []c07Expr `json:"groups,omitempty"`
+	Cols     []c07Col  `json:"cols,omitempty"`
+	Keep     bool      `json:"keep,omitempty"`
+	Reverse  bool      `json:"reverse,omitempty"`
+	Ps       []float64 `json:"ps,omitempty"`
+	Samples  []string  `json:"samples,omitempty"` // num: the sample strings
+	Family   string    `json:"family,omitempty"`  // num: generator family (tag only)
 }
 
 func unhexs(xs []string) []string {
@@ -269,8 +270,8 @@ type c07Parsed struct {
 	expl bool
 }
 
-func parseN(s string, d byte, nkeys int) c07Parsed {
-	parts := strings.Split(s, string([]byte{d}))
+func parseN(s string, d string, nkeys int) c07Parsed {
+	parts := strings.Split(s, d)
 	var p c07Parsed
 	p.a = parts[0]
 	if nkeys == 2 && len(parts) > 1 {
@@ -286,7 +287,7 @@ func parseN(s string, d byte, nkeys int) c07Parsed {
 	return p
 }
 
-func histTags(kind string, hist []string, d byte) (tags []string, nontrivial bool) {
+func histTags(kind string, hist []string, d string) (tags []string, nontrivial bool) {
 	nkeys := 2
 	if kind == "counter" {
 		nkeys = 1
@@ -299,7 +300,7 @@ func histTags(kind string, hist []string, d byte) (tags []string, nontrivial boo
 	cols := map[string]bool{}
 	for _, s := range hist {
 		p := parseN(s, d, nkeys)
-		if strings.Count(s, string([]byte{d})) > nkeys {
+		if strings.Count(s, d) > nkeys {
 			extra++
 		}
 		if !p.ok {
@@ -392,7 +393,10 @@ func c07Case(in c07In) Case {
 	tags := []string{"kind=" + in.Kind}
 	nontrivial := false
 	hist := unhexs(in.Hist)
-	d := byte(in.Delim)
+	d := string([]byte{byte(in.Delim)})
+	if in.DelimHex != "" {
+		d = unhexs([]string{in.DelimHex})[0]
+	}
 	var prefix, note string // the Coq term is prefix + the observations collected before any panic
 	func() {
 		defer func() {
@@ -408,7 +412,7 @@ func c07Case(in c07In) Case {
 		switch in.Kind {
 		case "counter":
 			prefix = fmt.Sprintf("kCounter %s", HLS(hist))
-			t, nt := histTags("counter", hist, 0)
+			t, nt := histTags("counter", hist, "\x00")
 			tags, nontrivial = append(tags, t...), nt
 			c := aggregation.NewCounter()
 			outs = append(outs, obsCounter(c))
@@ -418,7 +422,7 @@ func c07Case(in c07In) Case {
 			}
 		case "subkey":
 			prefix = fmt.Sprintf("kSubkey %s", HLS(hist))
-			t, nt := histTags("subkey", hist, 0)
+			t, nt := histTags("subkey", hist, "\x00")
 			tags, nontrivial = append(tags, t...), nt
 			c := aggregation.NewSubKeyCounter()
 			outs = append(outs, obsSubkey(c))
@@ -427,11 +431,14 @@ func c07Case(in c07In) Case {
 				outs = append(outs, obsSubkey(c))
 			}
 		case "table":
-			prefix = fmt.Sprintf("kTable %d %s", d, HLS(hist))
+			prefix = fmt.Sprintf("kTable %s %s", HS(d), HLS(hist))
 			t, nt := histTags("table", hist, d)
 			tags, nontrivial = append(tags, t...), nt
-			tags = append(tags, fmt.Sprintf("delim=%#02x", d))
-			c := aggregation.NewTable(string([]byte{d}))
+			tags = append(tags, "delim="+hex.EncodeToString([]byte(d)))
+			if len(d) > 1 {
+				tags = append(tags, "multi-byte-delimiter")
+			}
+			c := aggregation.NewTable(d)
 			outs = append(outs, obsTable("ot", c, sortedCols(c)))
 			for _, s := range hist {
 				c.Sample(s)
@@ -443,7 +450,10 @@ func c07Case(in c07In) Case {
 			if in.Pred2 != nil {
 				p2 = "(Some " + in.Pred2.coq() + ")"
 			}
-			prefix = fmt.Sprintf("kTrim %d %s %s %s %s", d, HLS(hist), in.Pred.coq(), HLS(h2), p2)
+			prefix = fmt.Sprintf("kTrim %s %s %s %s %s", HS(d), HLS(hist), in.Pred.coq(), HLS(h2), p2)
+			if len(d) > 1 {
+				tags = append(tags, "multi-byte-delimiter")
+			}
 			t, nt := histTags("table", append(append([]string(nil), hist...), h2...), d)
 			tags = append(tags, t...)
 			tags = append(tags, "pred="+in.Pred.Kind)
@@ -466,7 +476,7 @@ func c07Case(in c07In) Case {
 				probe = append(probe, k)
 			}
 			sort.Strings(probe)
-			c := aggregation.NewTable(string([]byte{d}))
+			c := aggregation.NewTable(d)
 			for _, s := range hist {
 				c.Sample(s)
 			}
@@ -648,7 +658,7 @@ func c07Key(r *Rng, alpha int, style int) string {
 }
 
 // a sample for an aggregator taking nkeys key fields and an optional increment
-func c07Sample(r *Rng, nkeys int, d byte, alphaA, alphaB, style int) string {
+func c07Sample(r *Rng, nkeys int, d string, alphaA, alphaB, style int) string {
 	fields := []string{c07Key(r, alphaA, style)}
 	nf := nkeys
 	switch x := r.Intn(10); {
@@ -674,10 +684,45 @@ func c07Sample(r *Rng, nkeys int, d byte, alphaA, alphaB, style int) string {
 			fields = append(fields, Pick(r, []string{"", "z", "9"}))
 		}
 	}
-	return strings.Join(fields, string([]byte{d}))
+	if len(d) > 1 {
+		// keys containing proper prefixes of the delimiter (its first byte alone, all but its last byte)
+		// at the start, in the middle and at the end of a field
+		for i := 0; i < len(fields) && i < nkeys; i++ {
+			if r.Chance(1, 2) {
+				pre := d[:1]
+				if r.Chance(1, 2) {
+					pre = d[:len(d)-1]
+				}
+				switch r.Intn(4) {
+				case 0:
+					fields[i] = pre + fields[i]
+				case 1:
+					fields[i] = fields[i] + pre
+				case 2:
+					fields[i] = fields[i] + pre + Pick(r, []string{"x", "30", d[len(d)-1:] + "q"})
+				default:
+					fields[i] = pre + fields[i] + pre
+				}
+			}
+		}
+	}
+	return strings.Join(fields, d)
 }
 
-func c07Hist(r *Rng, nkeys int, d byte) []string {
+// the table's delimiter: NUL (the program's default) half of the time, another single byte, or a
+// multi-byte delimiter incl. ones with a repeated first byte
+func c07Delim(r *Rng) string {
+	switch x := r.Intn(12); {
+	case x < 5:
+		return "\x00"
+	case x < 7:
+		return Pick(r, []string{" ", ",", ":", "\xff"})
+	default:
+		return Pick(r, []string{"::", "->", ", ", "ab", "aa", "aab", ":::", "\x00\x00"})
+	}
+}
+
+func c07Hist(r *Rng, nkeys int, d string) []string {
 	var n int
 	switch x := r.Intn(10); {
 	case x < 2:
@@ -710,7 +755,7 @@ func shuffle(r *Rng, h []string) []string {
 	return out
 }
 
-func c07GenPred(r *Rng, hist []string, d byte) *c07Pred {
+func c07GenPred(r *Rng, hist []string, d string) *c07Pred {
 	cols, rows := map[string]bool{}, map[string]bool{}
 	for _, s := range hist {
 		p := parseN(s, d, 2)
@@ -983,22 +1028,16 @@ func c07Gen(r *Rng, n int, tier string) []Case {
 	for len(cases) < base+n {
 		switch x := r.Intn(100); {
 		case x < 12:
-			cases = append(cases, c07Case(c07In{Kind: "counter", Hist: hexs(c07Hist(r, 1, 0))}))
+			cases = append(cases, c07Case(c07In{Kind: "counter", Hist: hexs(c07Hist(r, 1, "\x00"))}))
 		case x < 34:
-			cases = append(cases, c07Case(c07In{Kind: "subkey", Hist: hexs(c07Hist(r, 2, 0))}))
+			cases = append(cases, c07Case(c07In{Kind: "subkey", Hist: hexs(c07Hist(r, 2, "\x00"))}))
 		case x < 50:
-			d := byte(0)
-			if r.Chance(1, 4) {
-				d = Pick(r, []byte{' ', ',', ':', 0xff})
-			}
-			cases = append(cases, c07Case(c07In{Kind: "table", Delim: int(d), Hist: hexs(c07Hist(r, 2, d))}))
+			d := c07Delim(r)
+			cases = append(cases, c07Case(c07In{Kind: "table", DelimHex: hex.EncodeToString([]byte(d)), Hist: hexs(c07Hist(r, 2, d))}))
 		case x < 64:
-			d := byte(0)
-			if r.Chance(1, 6) {
-				d = Pick(r, []byte{' ', ','})
-			}
+			d := c07Delim(r)
 			h := c07Hist(r, 2, d)
-			in := c07In{Kind: "trim", Delim: int(d), Hist: hexs(h), Pred: c07GenPred(r, h, d)}
+			in := c07In{Kind: "trim", DelimHex: hex.EncodeToString([]byte(d)), Hist: hexs(h), Pred: c07GenPred(r, h, d)}
 			if r.Chance(2, 3) {
 				// more samples after the Trim (same alphabets: they re-create trimmed cells, rows and columns)
 				k := r.Range(1, 12)
@@ -1026,7 +1065,7 @@ func c07Gen(r *Rng, n int, tier string) []Case {
 			if k == "counter" {
 				nk = 1
 			}
-			h := c07Hist(r, nk, 0)
+			h := c07Hist(r, nk, "\x00")
 			cases = append(cases, c07Case(c07In{Kind: "perm", PermOf: k, Hist: hexs(h), Hist2: hexs(shuffle(r, h))}))
 		}
 	}
@@ -1039,7 +1078,7 @@ func main() {
 		Header: "From Coq Require Import List NArith ZArith String.\nFrom RareV Require Import Base.Res Model.Agg Model.Welford Corr.C07Case.\nImport ListNotations.\nOpen Scope Z_scope. Open Scope string_scope.\n",
 		Rule: "exhaustive small scope first (all histories of length <= 2 (quick) / 4 (thorough) over 2 keys x 2 sub-keys x increments {absent, -2, non-numeric}, for counter, sub-key counter and table), " +
 			"then seeded random cases of 7 kinds: counter / sub-key counter / table histories (length 0..60; keys and sub-keys from alphabets of size 1..4 in four styles incl. shared prefixes and bytes >= 0x80, empty, long random strings; " +
-			"increments absent / small / negative / 0 / +5 / ' 5' / non-numeric / empty / +-2^62 / int64 bounds and just beyond; extra fields; table delimiter NUL or another single byte), every public accessor read after every prefix; " +
+			"increments absent / small / negative / 0 / +5 / ' 5' / non-numeric / empty / +-2^62 / int64 bounds and just beyond; extra fields; table delimiter NUL, another single byte, or a multi-byte delimiter ('::', '->', ', ', 'ab', 'aa', 'aab', ':::', NUL NUL) with keys that contain proper prefixes of the delimiter (its first byte alone, all but its last byte) at the start, middle and end of a field), every public accessor read after every prefix; " +
 			"trim (table history, Trim by column set / row set / value threshold / column-and-value, then 0..12 further samples that re-create trimmed cells, optionally a second Trim; every accessor before the first Trim and after every later call, Value/ColTotal probed at every column of the whole history, checked against the table determined by the cells alone), " +
 			"accumulating group (0..2 group expressions, 1..3 data expressions from {.}, {n}, {name}, literals, concatenation, sumi; histories of NUL-joined fields), numerical (integers with ties, dyadic fractions, decimals; half of the cases with a magnitude that dwarfs the spread: offsets 1e6/1e9/4e9/1e12/1.7e12/1e15 (also negative) plus small integers or fractions, epoch-millisecond timestamps, one huge value among small ones, constant sequences at a huge value; Variance/StdDev^2 compared with the exact rational sample variance within the relative bound 1e-9 + 8*n*2^-53*kappa that Welford's update meets; " +
 			"parse errors; keep-values on/off; reverse; quantiles p whose index computation is exact in float64, some p<0 and p>=1), and permutation pairs (a history and a shuffle of it). " +
